@@ -25,8 +25,8 @@ ASSUMPTIONS = [
     'no control requests are issued (quantifier of C18)',
 ]
 BUDGET = {
-    'quick': {'enum': ['pairs', 'nested'], 'hyp': 2000, 'shards': 8},
-    'thorough': {'enum': ['pairs', 'triples', 'nested'], 'hyp': 80000, 'shards': 16},
+    'quick': {'enum': ['pairs', 'nested', 'ctl'], 'hyp': 2000, 'shards': 8},
+    'thorough': {'enum': ['pairs', 'triples', 'nested', 'ctl'], 'hyp': 80000, 'shards': 16},
 }
 S = gen.S
 NESTED_MODE = False
@@ -49,6 +49,9 @@ SHAPES = {
     'launcher': {'steps': [S([['launch', CHILD, 50], ['yield'], ['launch', CHILD_WAITS, 51], ['yield']], ['value', 5], True)]},
     'failing': {'steps': [S([['yield'], ['raise', 'x']], ['value', 0], True)]},
 }
+CHILD_W = {'steps': [S([['status', 'cw']], ['wait', 1, None, None]), S([['yield']], ['value', 8], True)]}
+AWAITER = {'steps': [S([['yield'], ['await_child', CHILD_W, 70], ['out', 'after', 1], ['yield']], ['continue', 1, [], {}], True), S([['soon', 'ok', 'ca']], ['value', 9])]}
+SELF_PAUSER = {'steps': [S([['call', 'pause', 'sp']], ['continue', 1, [], {}]), S([['yield'], ['call', 'pause', 'sp2'], ['yield']], ['wait', 2, None, None], True), S([], ['value', 3])]}
 NESTER = {'steps': [S([['nested', CHILD, 60], ['out', 'after', 1], ['nested', SHAPES['sync'], 61]], ['continue', 1, [], {}]), S([['yield']], ['value', 6], True)]}
 NESTER_ASYNC_PARENT = {'steps': [S([['yield']], ['continue', 1, [], {}], True), S([['nested', SHAPES['y3'], 62]], ['value', 7])]}
 
@@ -57,6 +60,21 @@ def enumerate_cases(tier, scope):
     import itertools
 
     names = list(SHAPES)
+    if scope == 'ctl':
+        for other in names + [None]:
+            for gap in (0, 1, 2):
+                for ctl in ([], [[3, '1/70', 'pause'], [6, '1/70', 'play']], [[2, '1/70', 'pause'], [3, '1/70', 'play'], [4, '1/70', 'pause'], [8, '1/70', 'play']], [[3, '1/70', 'pause'], [5, '1/70', 'kill']], [[4, '1/70', 'kill']]):
+                    procs = [{'program': AWAITER, 'pid': 1}]
+                    if other:
+                        procs.append({'program': SHAPES[other], 'pid': 2})
+                    yield {'procs': procs, 'start_gaps': [0, gap][: len(procs)], 'nested': False, 'ctl': ctl}
+        for other in names + [None]:
+            for gap in (0, 1, 2):
+                procs = [{'program': SELF_PAUSER, 'pid': 1}]
+                if other:
+                    procs.append({'program': SHAPES[other], 'pid': 2})
+                yield {'procs': procs, 'start_gaps': [0, gap][: len(procs)], 'nested': False}
+        return
     if scope in ('pairs', 'triples'):
         k = 2 if scope == 'pairs' else 3
         for combo in itertools.product(names, repeat=k):
@@ -75,18 +93,18 @@ def enumerate_cases(tier, scope):
 
 
 @st.composite
-def _program(draw, depth, nested_ok, pid_base):
+def _program(draw, depth, nested_ok, pid_base, selfcontained=False):
     n = draw(st.integers(1, 3))
     steps = []
     for idx in range(n):
         is_async = draw(st.booleans())
         body = []
         for j in range(draw(st.integers(0, 4))):
-            kinds = ['out', 'soon', 'status', 'soon_parent']
+            kinds = ['out', 'soon', 'status', 'soon_parent'] + ([] if selfcontained else ['selfpause'])
             if is_async:
-                kinds += ['yield', 'yield', 'yield', 'gate']
+                kinds += ['yield', 'yield', 'yield'] + ([] if selfcontained else ['gate'])
             if depth > 0:
-                kinds += ['launch']
+                kinds += ['launch'] + (['await_child'] if is_async else [])
                 if nested_ok and not is_async:
                     kinds += ['nested', 'nested']
             kind = draw(st.sampled_from(kinds))
@@ -100,13 +118,18 @@ def _program(draw, depth, nested_ok, pid_base):
                 body.append(['soon', 'ok', 'c%d' % j])
             elif kind == 'soon_parent':
                 body.append(['soon_parent', 'p%d' % j])
+            elif kind == 'selfpause':
+                body.append(['call', 'pause', 'sp%d' % j])
             elif kind == 'status':
                 body.append(['status', 's'])
             else:
                 child_pid = pid_base * 10 + idx * 5 + j
-                body.append([kind, draw(_program(depth - 1, nested_ok, child_pid)), child_pid])
+                # a process executed re-entrantly must be able to finish without the harness: no gates, waits, pauses
+                body.append([kind, draw(_program(depth - 1, nested_ok, child_pid, selfcontained or kind == 'nested')), child_pid])
         if idx == n - 1:
             ret = draw(st.sampled_from([['value', 1], ['unsuccessful', 2], ['raise', 'e'], ['kill', 'k']]))
+        elif selfcontained:
+            ret = ['continue', idx + 1, [idx], {}]
         else:
             ret = draw(st.sampled_from([['continue', idx + 1, [idx], {}], ['wait', idx + 1, None, None]]))
         steps.append({'async': is_async, 'body': body, 'ret': ret})
@@ -119,7 +142,10 @@ def _cases(draw, tier):
     n = draw(st.integers(1, 4))
     procs = [{'program': draw(_program(2, nested, i + 1)), 'pid': i + 1} for i in range(n)]
     gaps = [draw(st.integers(0, 3)) for _ in range(n)]
-    return {'procs': procs, 'start_gaps': gaps, 'nested': nested}
+    ctl = []
+    for _ in range(draw(st.integers(0, 3))):
+        ctl.append([draw(st.integers(0, 12)), draw(st.sampled_from(['any-child', 'any-child', 'any'])), draw(st.sampled_from(['pause', 'play', 'play', 'kill']))])
+    return {'procs': procs, 'start_gaps': gaps, 'nested': nested, 'ctl': sorted(ctl)}
 
 
 def strategy(tier):
@@ -193,9 +219,35 @@ def execute(case):
                         loop.create_task(proc.step_until_terminated())
                     started += 1
 
+        ctl = list(case.get('ctl', []))
+        externally_paused = set()
+
+        def apply_ctl():
+            for ev in list(ctl):
+                if ev[0] <= tick:
+                    ctl.remove(ev)
+                    everyone = procs + list(w.extra.get('children', []))
+                    if ev[1] == 'any':
+                        targets = everyone[:1]
+                    elif ev[1] == 'any-child':
+                        targets = list(w.extra.get('children', []))[:1]
+                    else:
+                        targets = [p for p in everyone if str(p.pid) == ev[1]]
+                    for target in targets:
+                        with loop.as_running():
+                            if ev[2] == 'pause':
+                                target.pause('ext')
+                                externally_paused.add(target.pid)
+                            elif ev[2] == 'play':
+                                target.play()
+                            else:
+                                target.kill('ext')
+                                externally_paused.add(target.pid)
+
         start_due()
         for _ in range(4000):
             outside.append(Process.current())
+            apply_ctl()
             ran = loop.step_one()
             tick += 1
             start_due()
@@ -205,10 +257,13 @@ def execute(case):
                     opened = w.open_all_gates()
                     resumed = 0
                     for proc in procs + list(w.extra.get('children', [])):
+                        if proc.paused and not proc.has_terminated():
+                            proc.play()
+                            resumed += 1
                         if proc.state.value == 'waiting':
                             proc.resume('rv')
                             resumed += 1
-                if not opened and not resumed:
+                if not opened and not resumed and not ctl:
                     break
         outside.append(Process.current())
 
@@ -230,8 +285,10 @@ def execute(case):
                     counts[hook] = counts.get(hook, 0) + 1
                 if (hook, counts.get(hook, 0)) in CONSTRUCTION or hook.startswith(('step:', 'cb:')):
                     continue
-                if hook in ('on_pausing', 'on_paused', 'on_playing'):
-                    continue
+                if hook == 'on_playing' or (hook in ('on_pausing', 'on_paused', 'on_kill', 'on_killed') and pid in externally_paused):
+                    continue  # run in the requester's code (the harness)
+                if pid in externally_paused and hook in ('on_entering', 'on_entered', 'on_exiting', 'on_exit_waiting', 'on_exit_running', 'on_terminated', 'on_close'):
+                    continue  # may belong to a kill carried out directly by the harness's call
                 sites['hook'] = sites.get('hook', 0) + 1
                 if cur is not True:
                     v('current-in-hook', f'pid {pid}: hook {hook} ({pos}, occurrence {counts.get(hook)}): Process.current() is not the process')
